@@ -100,6 +100,43 @@ CLAIMED = {
 
 REASONS_PENDING = "check not built yet in this round; see DESIGN.md section 9 for the construction order"
 
+# additions of round 2 (appended to the texts above)
+EXTRA = {
+ "C01": ("; byte sweep (scanner modes x lexeme prefixes x 256 byte values), programs with action-reported errors under a nil callback, every parameter shape, deeply nested programs",
+         " Round 2 adds: a byte sweep (29 mode contexts of Lexer.tla x 66 lexeme prefixes x all 256 byte values; thorough: pairs of class-boundary bytes), the programs on which a PHP 5 grammar action reports an error itself (nil callback), every (type, &, ..., default) parameter shape in every kind of signature, programs nested 20+ blocks deep."),
+ "C02": ("; PrinterOut.tla (printer output stage; invariant SourceVerbatim) replayed through a recording io.Writer; the command line tool's -pb over a directory",
+         " Round 2 adds: PrinterOut.tla specifies when the printer puts '<?php ', a space or '?>' in front of a chunk; TLC checks SourceVerbatim/EveryChunkOnce on all chunk sequences up to the bound and every source-only sequence is replayed Write call by Write call. All three root forms of Syntax.tla (statement lists, bracketed-namespace files, __halt_compiler + payload); scaled sources must parse clean (else exit 2). The real cmd/php-parser binary processes a directory with -pb; every file must hold what the library prints for it alone."),
+ "C03": ("; exhaustive operator pairs/triples and constant-expression pairs; flexible-heredoc version gating; literal table; statement-pair compositionality; rule coverage of the real grammars via the goyacc debug stream",
+         " Round 2 adds: every expression statement of <= 7 choices in the quick tier too (all operator pairs), the same for constant expressions (PHP 5's static_operation grammar), the '73' family (accepted under 7.3/7.4/nil, rejected before), PHP's literal spellings, sequences of two statements = the two statements, and a measurement of which productions of the real grammars the programs reduce (453 of 494 / 482 of 520)."),
+ "C04": ("; NewLines.tla (line table fed by the new_line action with head set-backs; Sorted/Exact/LinesRight/CrLfOnce) replayed on scanner.NewLines and on every LF/CR/other string in 17 lexical contexts; long multi-line tokens; sources of 35 k tokens",
+         " Round 2 adds NewLines.tla and its two bindings, multi-line tokens of up to 130 lines starting in column 0, and sources of tens of thousands of tokens (pool blocks)."),
+ "C05": ("; every access chain of <= 6 choices (TLC, exhaustive); all root forms; scaled sources",
+         " Round 2 adds the exhaustive access-chain fragment, bracketed-namespace files and halt-compiler programs, and the structural span rule on sources with tens of thousands of nodes."),
+ "C06": ("; LRDriver.tla (goyacc's parser loop with error recovery) + TLC trace validation (LRTrace.tla) of yyParse's own debug stream; action-reported errors must select the offending text",
+         " Round 2 adds LRDriver.tla/LRTrace.tla: yyParse runs with its debug stream on (hook VerifSetDebug) and every step (lex, shift/goto, reduce, error report, pop, error shift, discard, return) is validated by TLC with ReportedBeforeAbort, ReportedBeforeRecovery, InputAccounting and CallbackAgrees (driver reports = callback deliveries) evaluated at every step; rejections are re-derived independently before they become verdicts; a trace without its error event must be rejected (binding self-test). PHP 5's action-reported errors must be delivered with a position that selects the offending text."),
+ "C07": ("; 17 malformed-statement kinds incl. stray closers; unrecoverable give-ups; trees returned with action-reported errors",
+         " Round 2 adds stray ')' ']' (and '}' at the top level), constructs left open at the end of the input after complete statements / bracketed namespaces, and the no-invention facts on trees returned with PHP 5's action-reported errors."),
+ "C08": ("; __halt_compiler gaps, the line break after a heredoc's ';', blanks in heredoc openers, the gap between ';' and '?>', empty comments",
+         " Round 2 adds the named special gaps; three known findings (lone CR, comment inside __halt_compiler ( ) ;, comment between ';' and '?>') need a scanner regeneration."),
+ "C09": ("; version strings parsed twice with the caller changing the first result in between",
+         " Round 2 adds an aliasing test on version.New."),
+ "C10": ("; every shared access chain of <= 6 choices and every shared constant expression of <= 9 choices (TLC, exhaustive)", ""),
+ "C11": ("; inputs incl. rendered NsResolver.tla files; the command line tool (parser workers + printer goroutine) built with the race detector over a directory",
+         " Round 2 adds the pipelines in their real packaging: cmd/php-parser built with -race processes a directory under GOMAXPROCS 2 and 16; every file's dump, error lines and printed text must be those of the library run on that file alone."),
+ "C12": ("; parsed trees of generated programs; statement pairs (no node shared between the two statements)", ""),
+ "C13": ("; the same observations in one long-lived process vs. a fresh process each (state kept outside the tree); signature programs; generated programs and rendered NsResolver.tla files",
+         " Round 2 adds a cross-process phase: operations on OTHER trees are part of 'any sequence of these operations', so every observer's output on resolver-heavy files is compared between one long-lived process and one fresh process per file."),
+ "C14": ("; sites for anonymous classes", ""),
+ "C15": ("; separator lists one short; PrinterOut.tla (NoGlue, Minimal, EveryChunkOnce, OpenTagWhenNeeded) replayed Write call by Write call; printing two nodes in one list = printing each (all kind pairs)",
+         " Round 2 adds PrinterOut.tla (879 k states at length 3, every behaviour replayed), list length 3 with a separator list that is one short (the default separator is owed), and compositionality over all ordered pairs of kinds."),
+ "C16": ("; generated and byte-diverse (non-UTF-8) programs; the command line tool's -d over a directory", ""),
+ "C17": ("; deeply nested programs; negative and non-decimal string offsets", " Two formatter defects found in round 2 are repaired (2ccad06, 12eb6e8); five known findings remain."),
+ "C18": ("; runs of 40 000 requests over 17 block sizes (powers of two and not)", ""),
+}
+for k, (t1, t2) in EXTRA.items():
+    CLAIMED[k]["technique"] += t1
+    CLAIMED[k]["text"] += t2
+
 m = {
  "version": 1,
  "setup_cmd": "./setup.sh",
